@@ -17,6 +17,88 @@ def _state(m):
         return "?"
 
 
+def run_late_relay(seed, tape, w, a, b, code):
+    """Hints arriving spread out in time while no connection can be made yet:
+    a direct hint towards a host that does not answer, then - a drawn time
+    later - further lists (relay entries, direct entries, junk). Handling them
+    never raises whatever the clock says."""
+    sim = w.sim
+    a.script = [("set_code", code),
+                ("dilate", {"no_listen": tape.choose(2, "nla") == 0})]
+    b.script = [("set_code", code),
+                ("dilate", {"no_listen": tape.choose(2, "nlb") == 0})]
+    # the peers cannot reach each other directly (NAT / firewall): every dial
+    # towards a client address hangs; the mailbox server is another host
+    for addr in ("127.0.0.1", "10.1.0.1"):
+        sim.net.host_mode[addr] = "hang"
+    sim.net.host_mode["10.9.9.8"] = "hang"
+    sim.net.host_mode["10.9.9.7"] = "refuse"
+    viol = []
+
+    def V(key, clause, detail):
+        if not viol:
+            viol.append({"key": key, "clause": clause, "detail": detail})
+
+    def mgr(c):
+        return c.w._boss._D._manager
+    sim.run(4000, until=lambda: mgr(a) is not None and mgr(b) is not None and
+            a.has("versions") and b.has("versions") and
+            getattr(mgr(a), "_connector", None) is not None and
+            getattr(mgr(b), "_connector", None) is not None,
+            max_time=60)
+    if mgr(a) is None or getattr(mgr(a), "_connector", None) is None:
+        from simlib.core import HarnessError
+        raise HarnessError("late_relay: dilation did not start")
+    direct = {"type": "direct-tcp-v1", "priority": 0.0,
+              "hostname": "10.9.9.8", "port": 4242}
+    relay = {"type": "relay-v1", "hints": [
+        {"type": "direct-tcp-v1", "priority": 0.0, "hostname": "10.9.9.7",
+         "port": 4001}]}
+    plan = [[direct]]
+    for _ in range(1 + tape.choose(3, "nlate")):
+        plan.append(tape.pick(([relay], [relay, direct], [direct], [],
+                               [{"type": "relay-v1", "hints": []}]), "lk"))
+    injected = []
+    for i, hints in enumerate(plan):
+        if i:
+            dt = tape.pick((0.0, 0.5, 1.999, 2.0, 2.5, 30.0), "gap")
+            if dt:
+                sim.reactor.callLater(dt, lambda: None)
+                sim.run(3000, max_time=dt)
+        src, dst = (b, a) if tape.choose(2, "dir") == 0 else (a, b)
+        injected.append((round(sim.now() - 1000.0, 3), src.name, hints))
+        sim.ev("inject_hints_timed", src.name, len(hints))
+        mgr(src).send_dilation_generation(type="connection-hints",
+                                          hints=hints)
+        if sim.net.autoflush:
+            sim.net.autoflush_all()
+        sim.run(600, max_time=0.2)
+    sim.run(600, max_time=1.0)
+    for c in (a, b):
+        if c.closed_results or c.saw_failure:
+            errtype = [v for k, v in c.events if k.endswith("_err")]
+            V("C20.dilation.wormhole_aborted.%s" %
+              (errtype[0].__name__ if errtype else "closed"),
+              "malformed hints never abort the wormhole",
+              "%s closed/failed after timed hint lists %s" %
+              (c.name, json.dumps(injected)[:400]))
+    for etype, text, why in w.log.errors:
+        if why and str(why).startswith("sim: exception"):
+            V("C20.dilation.escaped.%s" % etype, "handling peer hints never "
+              "raises", "%s: %s; timed lists %s" %
+              (etype, text[:160], json.dumps(injected)[:300]))
+    for c in (a, b):
+        c.do_close()
+    sim.run(3000, until=lambda: a.is_closed and b.is_closed, max_time=200)
+    w.finish()
+    sim.note("probe.hints_spread_over_time")
+    return ca.result(sim, w, viol[0] if viol else None, True, seed,
+                     extra_sample={"half": "dilation", "late_relay": True,
+                                   "timed_hints": injected[:4]},
+                     extra_stats={"distinct_hint_lists":
+                                  [hash(json.dumps(injected, sort_keys=True))]})
+
+
 def run_dilation(seed, tape, opts):
     w = MailboxWorld(tape, dict(opts, spake="stub"))
     sim = w.sim
@@ -26,6 +108,9 @@ def run_dilation(seed, tape, opts):
     b = w.add_client("B", api="deferred", dilation=True)
     code = ca.fixed_code(tape)
     w.mode = "dilation-hints"
+    late_relay = tape.choose(4, "late_relay") == 0
+    if late_relay:
+        return run_late_relay(seed, tape, w, a, b, code)
     a.script = [("set_code", code), ("dilate", {})]
     b.script = [("set_code", code), ("dilate", {})]
     bogus = ("10.9.9.7", 4242)
